@@ -401,31 +401,46 @@ fn op_kind(op: &Op) -> &'static str {
     }
 }
 
-#[derive(Default)]
+#[derive(Default, Serialize, Deserialize)]
 struct SeqOut {
-    states: u64,
+    /// hashes of the canonical renderings of the distinct states reached (merged by the parent)
+    state_hashes: Vec<u64>,
     transitions: u64,
     violating: u64,
-    violations: Vec<(String, String, serde_json::Value)>,
+    violations: Vec<nvc::report::ViolationRec>,
     deepest: Vec<Op>,
-    seqs: Vec<BlockSeq>,
+    /// commit-built block sequences: (configuration, history, dedup key)
+    seqs: Vec<(Cfg, Vec<Op>, String)>,
     commits_ok: u64,
     commits_err: u64,
-    merged_blocks: u64,
+    tasks: Vec<serde_json::Value>,
 }
-fn part_s(cfg: Cfg, depth: usize, out: &mut SeqOut, seq_seen: &mut HashSet<String>) {
+fn hash_str(s: &str) -> u64 {
+    use std::hash::{Hash, Hasher};
+    let mut h = std::collections::hash_map::DefaultHasher::new();
+    s.hash(&mut h);
+    h.finish()
+}
+fn first_ops() -> Vec<Op> {
+    vec![Op::Begin(0), Op::Begin(1), Op::AppendSigned, Op::AppendUnsigned]
+}
+/// BFS below the one-operation history [first] (the parent counts the empty history itself)
+fn part_s(cfg: Cfg, depth: usize, first: Op, out: &mut SeqOut) {
+    let t0 = env::real_now_s();
+    let (st0, tr0) = (out.state_hashes.len(), out.transitions);
     let alpha = alphabet();
     let mut seen: HashSet<String> = HashSet::new();
-    seen.insert(Seq::fresh(cfg).canon());
-    out.states += 1;
     let mut frontier: Vec<Vec<Op>> = vec![vec![]];
-    for _level in 0..depth {
-        type Row = (Vec<Op>, Result<(String, Option<BlockSeq>, bool, bool), Viol>);
+    for level in 0..depth {
+        type Row = (Vec<Op>, Result<(String, Option<String>, bool, bool), Viol>);
         let results: Vec<Row> = frontier
             .par_iter()
             .flat_map_iter(|hist| {
                 let mut v: Vec<Row> = vec![];
                 for op in &alpha {
+                    if level == 0 && *op != first {
+                        continue;
+                    }
                     let slot = match op {
                         Op::Put(w, _) | Op::Del(w, _) | Op::Commit(w) | Op::Rollback(w) => Some(*w),
                         _ => None,
@@ -451,8 +466,11 @@ fn part_s(cfg: Cfg, depth: usize, out: &mut SeqOut, seq_seen: &mut HashSet<Strin
                     }
                     let new_block = s.ref_blocks.len() > blocks_before;
                     let commit_failed = matches!(op, Op::Commit(_)) && !new_block;
-                    let bs = (new_block && s.commit_only).then(|| BlockSeq { hist: h2.clone(), cfg, proposer: s.chain.node_id().clone(), pubkey: s.chain.public_key_bytes(), blocks: (1..=s.chain.height()).map(|h| s.chain.get_block(h).unwrap().unwrap()).collect() });
-                    v.push((h2, Ok((s.canon(), bs, new_block, commit_failed))));
+                    let seq_key = (new_block && s.commit_only && !s.ref_blocks.last().unwrap().is_empty()).then(|| {
+                        let blocks: Vec<Block> = (1..=s.chain.height()).map(|h| s.chain.get_block(h).unwrap().unwrap()).collect();
+                        format!("{:?}", blocks.iter().map(|b| (&b.transactions, b.header.delta_embedding.nnz())).collect::<Vec<_>>())
+                    });
+                    v.push((h2, Ok((s.canon(), seq_key, new_block, commit_failed))));
                 }
                 v
             })
@@ -469,11 +487,11 @@ fn part_s(cfg: Cfg, depth: usize, out: &mut SeqOut, seq_seen: &mut HashSet<Strin
                         Op::AppendUnsigned if v.sig == "verify-fails" => "c16:seq:append-accepts-unsigned-block-1:verify-fails".to_string(),
                         op => format!("c16:seq:{}:{}", op_kind(op), v.sig),
                     };
-                    if out.violations.iter().filter(|x| x.0 == sig).count() < 3 {
-                        out.violations.push((sig, format!("cfg {cfg:?}, after {hist:?}: {}", v.msg), json!({"part":"S","cfg":cfg,"ops":hist})));
+                    if out.violations.iter().filter(|x| x.signature == sig).count() < 3 {
+                        out.violations.push(nvc::report::ViolationRec { signature: sig, message: format!("cfg {cfg:?}, after {hist:?}: {}", v.msg), replay: json!({"part":"S","cfg":cfg,"ops":hist}) });
                     }
                 }
-                Ok((key, bs, new_block, commit_failed)) => {
+                Ok((key, seq_key, new_block, commit_failed)) => {
                     if matches!(hist.last(), Some(Op::Commit(_))) {
                         if new_block {
                             out.commits_ok += 1;
@@ -481,16 +499,13 @@ fn part_s(cfg: Cfg, depth: usize, out: &mut SeqOut, seq_seen: &mut HashSet<Strin
                             out.commits_err += 1;
                         }
                     }
-                    if let Some(bs) = bs {
-                        if bs.blocks.last().is_some_and(|b| b.transactions.iter().filter(|t| matches!(t, Transaction::Put { .. } | Transaction::Delete { .. })).count() > 0) {
-                            let k = format!("{:?}", bs.blocks.iter().map(|b| (&b.transactions, b.header.delta_embedding.nnz())).collect::<Vec<_>>());
-                            if seq_seen.insert(k) {
-                                out.seqs.push(bs);
-                            }
+                    if let Some(k) = seq_key {
+                        if !out.seqs.iter().any(|x| x.2 == k) {
+                            out.seqs.push((cfg, hist.clone(), k));
                         }
                     }
-                    if seen.insert(key) {
-                        out.states += 1;
+                    if seen.insert(key.clone()) {
+                        out.state_hashes.push(hash_str(&key));
                         out.deepest = hist.clone();
                         next.push(hist);
                     }
@@ -499,7 +514,20 @@ fn part_s(cfg: Cfg, depth: usize, out: &mut SeqOut, seq_seen: &mut HashSet<Strin
         }
         frontier = next;
     }
-    let _ = &mut out.merged_blocks;
+    out.tasks.push(json!({"cfg": cfg, "first_op": first, "depth": depth, "states": out.state_hashes.len() - st0, "transitions": out.transitions - tr0, "wall_s": env::real_now_s() - t0}));
+}
+fn block_seq(cfg: Cfg, hist: &[Op]) -> BlockSeq {
+    let s = replay(cfg, hist).ok().expect("replay of a recorded history");
+    BlockSeq { hist: hist.to_vec(), cfg, proposer: s.chain.node_id().clone(), pubkey: s.chain.public_key_bytes(), blocks: (1..=s.chain.height()).map(|h| s.chain.get_block(h).unwrap().unwrap()).collect() }
+}
+fn s_depth(cfg_index: usize, thorough: bool) -> usize {
+    // the two leading configurations (plain workspaces; orthogonal embeddings with auto-merge) go one deeper
+    let d = if thorough { 6 } else { 5 };
+    if cfg_index < 2 {
+        d
+    } else {
+        d - 1
+    }
 }
 
 // ------------------------------------------------------------------------------------------ Part R
@@ -520,6 +548,7 @@ fn mk_replica(node_id: &str, pubkey: &[u8; 32]) -> Replica {
 }
 #[derive(Default)]
 struct ReplicaOut {
+    passing_by_scenario: BTreeMap<u8, u64>,
     sequences: u64,
     blocks_applied: u64,
     accepted_a: u64,
@@ -528,6 +557,7 @@ struct ReplicaOut {
     violations: Vec<(String, String, serde_json::Value)>,
 }
 /// Replica A: proposer's node id, created and run at the proposer's clock value T.
+/// scenario 0: B = identical twin of A (control: the comparison itself must be able to pass).
 /// scenario 1: B = same node id, created at T (identical genesis), applies the blocks one hour later.
 /// scenario 2: B = same node id, created (and run) one hour later.
 /// scenario 3: B = another node id, created and run at T.
@@ -545,11 +575,12 @@ fn replica_case(bs: &BlockSeq, scenario: u8) -> (u64, u64, u64, Option<Viol>) {
         ra.push((r, compute_state_root(&a.store).expect("root"), user_store(&a.store)));
     }
     let what_b = match scenario {
+        0 => "replica B (identical twin: same node id, same clock)",
         1 => "replica B (same genesis, clock T+1h)",
         2 => "replica B (created at T+1h)",
         _ => "replica B (node id replica-b, same clock)",
     };
-    if scenario != 3 {
+    if scenario == 1 || scenario == 2 {
         thread_clock_advance_ms(HOUR_MS);
     }
     let mut out = None;
@@ -583,15 +614,16 @@ fn replica_case(bs: &BlockSeq, scenario: u8) -> (u64, u64, u64, Option<Viol>) {
 }
 fn part_r(seqs: &[BlockSeq]) -> ReplicaOut {
     let mut out = ReplicaOut::default();
-    let rows: Vec<(usize, u8, (u64, u64, u64, Option<Viol>))> = seqs.par_iter().enumerate().flat_map_iter(|(i, bs)| [1u8, 2u8, 3u8].into_iter().map(move |sc| (i, sc, replica_case(bs, sc)))).collect();
+    let rows: Vec<(usize, u8, (u64, u64, u64, Option<Viol>))> = seqs.par_iter().enumerate().flat_map_iter(|(i, bs)| [0u8, 1u8, 2u8, 3u8].into_iter().map(move |sc| (i, sc, replica_case(bs, sc)))).collect();
     for (i, sc, (applied, acc, cmp, v)) in rows {
         out.sequences += 1;
         out.blocks_applied += applied;
         out.accepted_a += acc;
         out.comparisons += cmp;
+        *out.passing_by_scenario.entry(sc).or_default() += u64::from(v.is_none());
         if let Some(v) = v {
             out.violating += 1;
-            let sig = format!("c16:replica:{}:{}", ["", "applied-an-hour-later", "created-an-hour-later", "other-node-id"][sc as usize], v.sig);
+            let sig = format!("c16:replica:{}:{}", ["identical-twin", "applied-an-hour-later", "created-an-hour-later", "other-node-id"][sc as usize], v.sig);
             if out.violations.iter().filter(|x| x.0 == sig).count() < 3 {
                 out.violations.push((sig, format!("blocks committed by {:?} (cfg {:?}), scenario {sc}: {}", seqs[i].hist, seqs[i].cfg, v.msg), json!({"part":"R","scenario":sc,"cfg":seqs[i].cfg,"ops":seqs[i].hist})));
             }
@@ -1018,6 +1050,7 @@ struct WStats {
     violation_total: u64,
     sample: Option<serde_json::Value>,
     machinery: Option<String>,
+    seq: SeqOut,
 }
 
 fn quiescent_check(b: &Built, p: &Program, results: &[Option<Result<(), String>>]) -> Verdict {
@@ -1162,19 +1195,46 @@ fn bound_for(p: &Program, thorough: bool) -> usize {
         1
     }
 }
-const PARTS: usize = 4;
+fn parts(thorough: bool) -> usize {
+    if thorough {
+        8
+    } else {
+        4
+    }
+}
+#[derive(Clone, Debug)]
+enum Task {
+    S(usize, Cfg, Op),
+    T(usize, usize),
+}
+/// S tasks = configuration x first operation; T tasks = program x partition of its schedule tree
+fn tasks(thorough: bool) -> Vec<Task> {
+    let mut v = vec![];
+    for (i, cfg) in configs().into_iter().enumerate() {
+        for f in first_ops() {
+            v.push(Task::S(i, cfg, f));
+        }
+    }
+    for (pi, _) in programs(thorough).iter().enumerate() {
+        for part in 0..parts(thorough) {
+            v.push(Task::T(pi, part));
+        }
+    }
+    v
+}
 fn worker(i: usize, n: usize, thorough: bool) {
     vsched::quiet_panics();
     vsched::set_thread_init(|t| env::set_thread_seed(t as u64 + 1));
+    let _ = rayon::ThreadPoolBuilder::new().num_threads(2).build_global();
     let mut st = WStats::default();
     let progs = programs(thorough);
-    let mut task = 0usize;
-    for p in &progs {
-        for part in 0..PARTS {
-            if task % n == i {
-                explore_program(p, bound_for(p, thorough), (part, PARTS), &mut st);
-            }
-            task += 1;
+    for (idx, task) in tasks(thorough).into_iter().enumerate() {
+        if idx % n != i {
+            continue;
+        }
+        match task {
+            Task::S(ci, cfg, first) => part_s(cfg, s_depth(ci, thorough), first, &mut st.seq),
+            Task::T(pi, part) => explore_program(&progs[pi], bound_for(&progs[pi], thorough), (part, parts(thorough)), &mut st),
         }
     }
     par::emit_result(&st);
@@ -1182,25 +1242,42 @@ fn worker(i: usize, n: usize, thorough: bool) {
 
 // ------------------------------------------------------------------------------------------ main
 fn run_selftest() -> ! {
-    SELFTEST.store(true, std::sync::atomic::Ordering::Relaxed);
-    let mut s = SeqOut::default();
-    part_s(Cfg { merge: false, dirs: 0 }, 3, &mut s, &mut HashSet::new());
-    println!("selftest S (reference ignores puts to key b): {} violating transitions, e.g. {:?}", s.violating, s.violations.first().map(|v| &v.0));
-    let x = part_x(false);
-    println!("selftest X (mutations are not written, verify() passes): {} undetected of {} cases", x.undetected, x.cases);
-    SELFTEST.store(false, std::sync::atomic::Ordering::Relaxed);
-    let mut s2 = SeqOut::default();
-    part_s(Cfg { merge: false, dirs: 0 }, 4, &mut s2, &mut HashSet::new());
-    SELFTEST.store(true, std::sync::atomic::Ordering::Relaxed);
-    let r = part_r(&s2.seqs[..s2.seqs.len().min(4)]);
-    println!("selftest R (replica B's root perturbed): {} violating of {} cases, e.g. {:?}", r.violating, r.sequences, r.violations.first().map(|v| &v.0));
+    // every part once with an intact reference (baseline), once with a deliberately corrupted one
+    let count = |v: &[nvc::report::ViolationRec], pat: &str| v.iter().filter(|x| x.signature.contains(pat)).count();
+    let run_s = || {
+        let mut s = SeqOut::default();
+        part_s(Cfg { merge: false, dirs: 0 }, 3, Op::Begin(0), &mut s);
+        s
+    };
     vsched::quiet_panics();
     vsched::set_thread_init(|t| env::set_thread_seed(t as u64 + 1));
-    let mut st = WStats::default();
-    explore_program(&programs(false)[0], 0, (0, 1), &mut st);
-    println!("selftest T (reference ignores puts to key b): {} violating schedules of {}", st.violation_total, st.executions);
-    let ok = s.violating > 0 && x.undetected == x.cases && x.cases > 0 && r.violating > 0 && st.violation_total > 0;
-    println!("selftest {}", if ok { "PASSED: every oracle alarms when its reference is corrupted" } else { "FAILED" });
+    let run_t = || {
+        let mut st = WStats::default();
+        explore_program(&programs(false)[0], 0, (0, 1), &mut st);
+        st
+    };
+    let mut s2 = SeqOut::default();
+    part_s(Cfg { merge: false, dirs: 0 }, 4, Op::Begin(0), &mut s2);
+    let seqs: Vec<BlockSeq> = s2.seqs.iter().take(4).map(|(c, h, _)| block_seq(*c, h)).collect();
+    let (s0, x0, r0, t0) = (run_s(), part_x(false), part_r(&seqs), run_t());
+    SELFTEST.store(true, std::sync::atomic::Ordering::Relaxed);
+    let (s1, x1, r1, t1) = (run_s(), part_x(false), part_r(&seqs), run_t());
+    let twin = |r: &ReplicaOut| r.passing_by_scenario.get(&0).copied().unwrap_or(0);
+    println!("selftest S (reference ignores puts to key b): commit:store-differs alarms {} -> {}", count(&s0.violations, "commit:store-differs"), count(&s1.violations, "commit:store-differs"));
+    println!("selftest X (field mutations are not written, so verify() passes): undetected {} -> {} of {} field mutations", x0.undetected, x1.undetected, x1.field_mutations);
+    println!("selftest R (replica B's root perturbed): identical-twin cases passing {} -> {} of {}", twin(&r0), twin(&r1), seqs.len());
+    println!("selftest T (reference ignores puts to key b): violating schedules {} -> {} of {}", t0.violation_total, t1.violation_total, t1.executions);
+    let ok = count(&s0.violations, "commit:store-differs") == 0
+        && count(&s1.violations, "commit:store-differs") > 0
+        && x1.undetected >= x1.field_mutations
+        && x0.undetected < 30
+        && twin(&r0) == seqs.len() as u64
+        && !seqs.is_empty()
+        && twin(&r1) == 0
+        && t0.violation_total == 0
+        && t1.violation_total == t1.executions
+        && t1.executions > 0;
+    println!("selftest {}", if ok { "PASSED: every oracle is quiet on its baseline and alarms when its reference is corrupted" } else { "FAILED" });
     std::process::exit(if ok { 0 } else { 2 });
 }
 
@@ -1219,52 +1296,20 @@ fn main() {
     let thorough = rep.thorough();
     let depth = if thorough { 6 } else { 5 };
     let bound = if thorough { "2 (2-thread programs) / 1 (3-thread programs)" } else { "1" };
-    rep.rule(&format!("S: for each of 6 configurations (auto-merge on/off x workspaces without / with identical / with orthogonal delta embeddings) BFS over every sequence of <= {depth} operations from {{begin(slot), put(slot,key), delete(slot,key), commit(slot), rollback(slot), append_block(signed|unsigned)}} over 2 workspace slots and 2 keys, replayed on a fresh real TensorChain, dedup on (blocks, store, workspace states/ops); after every step: verify() Ok, every height present/linked/rooted, tip_hash/get_block/history agree with the blocks added, new block == the writes of exactly the workspaces that became Committed, store user keys == reference. X: genesis + 3 committed blocks, own and a second validator key registered; every header-field and transaction-list mutation of every stored block (tx_root kept and recomputed), co-signature injection, every removal, every swap, 4 forgeries per block, every single-bit flip of every stored block's bytes; verify() must fail unless the decoded block is equal. R: every distinct commit-built block sequence of S applied by two TensorStateMachines (proposer's node id and key), replica A at the proposer's clock T; replica B: (1) same genesis, applies one hour later, (2) created one hour later, (3) another node id at the same clock; same accept/reject, same compute_state_root after each block. T: per program 2{} real threads calling commit (one program: rollback) on prepared workspaces, every schedule with <= {bound} preemptions; quiescent chain verifies and is linked, each Committed workspace exactly once in one block, no other, store == blocks applied in order. non-trivial = distinct S states + schedules with >= 1 preemption + tamper cases + replica comparisons", if thorough { "-3" } else { "" }));
+    rep.rule(&format!("S: for each of 6 configurations (auto-merge on/off x workspaces without / with identical / with orthogonal delta embeddings) BFS over every sequence of <= {depth} (first two configurations) / {} (others) operations from {{begin(slot), put(slot,key), delete(slot,key), commit(slot), rollback(slot), append_block(signed|unsigned)}} over 2 workspace slots and 2 keys, replayed on a fresh real TensorChain, dedup on (blocks, store, workspace states/ops); after every step: verify() Ok, every height present/linked/rooted, tip_hash/get_block/history agree with the blocks added, new block == the writes of exactly the workspaces that became Committed, store user keys == reference. X: genesis + 3 committed blocks, own and a second validator key registered; every header-field and transaction-list mutation of every stored block (tx_root kept and recomputed), co-signature injection, every removal, every swap, 4 forgeries per block, every single-bit flip of every stored block's bytes; verify() must fail unless the decoded block is equal. R: every distinct commit-built block sequence of S applied by two TensorStateMachines (proposer's node id and key), replica A at the proposer's clock T; replica B: (0) identical twin, (1) same genesis, applies one hour later, (2) created one hour later, (3) another node id at the same clock; same accept/reject, same compute_state_root after each block. T: per program 2{} real threads calling commit (one program: rollback) on prepared workspaces, every schedule with <= {bound} preemptions; quiescent chain verifies and is linked, each Committed workspace exactly once in one block, no other, store == blocks applied in order. non-trivial = distinct S states + schedules with >= 1 preemption + tamper cases + replica comparisons", depth - 1, if thorough { "-3" } else { "" }));
     rep.assume("interleavings at lock-acquisition granularity: TensorChain::commit/rollback, TransactionManager, TransactionWorkspace, Chain, GraphEngine, TensorStore, ValidatorRegistry, GlobalCodebook use parking_lot / dashmap locks only (no std::sync, tokio::sync or Condvar on these paths); Chain::height is an atomic read inside lock-delimited segments");
     rep.assume("tampering = rewriting the `_block` bytes (or the whole entry) of `chain:block:<h>` in the store of a live TensorChain; the in-memory height/tip of that instance are trusted; reopening a truncated store is not examined");
 
-    // Part S
-    let mut s = SeqOut::default();
-    let mut seq_seen = HashSet::new();
-    let t = env::real_now_s();
-    for cfg in configs() {
-        part_s(cfg, depth, &mut s, &mut seq_seen);
-    }
-    let s_wall = env::real_now_s() - t;
-    for (sig, msg, r) in &s.violations {
-        rep.violation(sig.clone(), msg.clone(), r.clone());
-    }
-    rep.part("S", json!({"depth": depth, "configurations": 6, "distinct_states": s.states, "transitions": s.transitions, "violating_transitions": s.violating, "commits_creating_a_block": s.commits_ok, "commits_without_block": s.commits_err, "wall_s": s_wall}));
-    rep.sample(json!({"part":"S","deepest_new_state_history": s.deepest}));
 
-    // Part X
-    let t = env::real_now_s();
-    let x = part_x(true);
-    if let Some(m) = &x.machinery {
-        rep.machinery(m.clone());
-    }
-    for (sig, msg, r) in &x.violations {
-        rep.violation(sig.clone(), msg.clone(), r.clone());
-    }
-    rep.part("X", json!({"cases": x.cases, "field_mutations": x.field_mutations, "removals_swaps_forgeries": x.structural, "bit_flips": x.bitflips, "bit_flips_undecodable": x.bitflips_decode_fail, "bit_flips_decoding_to_the_same_block": x.benign_equal, "detected": x.detected, "undetected": x.undetected, "undetected_cases": x.undetected_list, "wall_s": env::real_now_s() - t}));
-    rep.sample(json!({"part":"X","chain":"genesis + [put a] + [put b, delete a | delta e3] + [put a, put c, delete b]","example_case":"block 2: tx 1 payload/kind altered, tx_root recomputed"}));
-
-    // Part R
-    let t = env::real_now_s();
-    let r = part_r(&s.seqs);
-    for (sig, msg, rp) in &r.violations {
-        rep.violation(sig.clone(), msg.clone(), rp.clone());
-    }
-    rep.part("R", json!({"distinct_block_sequences": s.seqs.len(), "cases (sequence x scenario)": r.sequences, "blocks_applied": r.blocks_applied, "blocks_accepted_by_replica_A": r.accepted_a, "root_comparisons": r.comparisons, "violating_cases": r.violating, "wall_s": env::real_now_s() - t}));
-    if let Some(bs) = s.seqs.last() {
-        rep.sample(json!({"part":"R","ops": bs.hist, "blocks": bs.blocks.iter().map(|b| format!("{:?}", b.transactions)).collect::<Vec<_>>()}));
-    }
-
-    // Part T
+    // Parts S and T run in worker processes (S: replay BFS per configuration x first operation; T: vsched)
     let t = env::real_now_s();
     let nprog = programs(thorough).len();
-    let results: Vec<WStats> = par::spawn_workers(par::worker_count().min(nprog * PARTS), &[]);
+    let results: Vec<WStats> = par::spawn_workers(par::worker_count().min(tasks(thorough).len()), &[]);
+    let st_wall = env::real_now_s() - t;
     let mut tt = WStats::default();
+    let mut state_hashes: HashSet<u64> = HashSet::new();
+    let mut s = SeqOut::default();
+    let mut seq_seen: HashSet<String> = HashSet::new();
     for w in results {
         tt.tasks += w.tasks;
         tt.executions += w.executions;
@@ -1286,26 +1331,71 @@ fn main() {
         if let Some(m) = w.machinery {
             rep.machinery(m);
         }
+        state_hashes.extend(w.seq.state_hashes.iter().copied());
+        s.transitions += w.seq.transitions;
+        s.violating += w.seq.violating;
+        s.commits_ok += w.seq.commits_ok;
+        s.commits_err += w.seq.commits_err;
+        s.tasks.extend(w.seq.tasks);
+        if w.seq.deepest.len() > s.deepest.len() {
+            s.deepest = w.seq.deepest.clone();
+        }
+        for v in w.seq.violations {
+            rep.violation(v.signature, v.message, v.replay);
+        }
+        for (c, h, k) in w.seq.seqs {
+            if seq_seen.insert(k.clone()) {
+                s.seqs.push((c, h, k));
+            }
+        }
     }
+    let s_states = state_hashes.len() as u64 + configs().len() as u64; // + the empty history of each configuration
+    s.seqs.sort_by(|a, b| (a.1.len(), format!("{:?}", a.1)).cmp(&(b.1.len(), format!("{:?}", b.1))));
+    rep.part("S", json!({"depth": depth, "tasks": s.tasks, "distinct_states": s_states, "transitions": s.transitions, "violating_transitions": s.violating, "commits_creating_a_block": s.commits_ok, "commits_without_block": s.commits_err, "wall_s_together_with_T": st_wall}));
+    rep.sample(json!({"part":"S","deepest_new_state_history": s.deepest}));
     let single: Vec<&String> = tt.outcomes.iter().filter(|(_, v)| v.len() < 2).map(|(k, _)| k).collect();
     let nontrivial_t: u64 = tt.by_preemptions.iter().filter(|(k, _)| **k > 0).map(|(_, v)| *v).sum();
-    rep.part("T", json!({"programs": nprog, "preemption_bound": bound, "schedules_executed": tt.executions, "scheduling_points": tt.sched_points, "max_points_per_execution": tt.max_points, "schedules_by_preemptions": tt.by_preemptions, "distinct_outcomes_per_program": tt.outcomes.iter().map(|(k, v)| (k.clone(), v.len())).collect::<BTreeMap<_, _>>(), "programs_with_a_single_outcome": single, "violating_schedules": tt.violation_total, "wall_s": env::real_now_s() - t}));
+    rep.part("T", json!({"programs": nprog, "preemption_bound": bound, "schedules_executed": tt.executions, "scheduling_points": tt.sched_points, "max_points_per_execution": tt.max_points, "schedules_by_preemptions": tt.by_preemptions, "distinct_outcomes_per_program": tt.outcomes.iter().map(|(k, v)| (k.clone(), v.len())).collect::<BTreeMap<_, _>>(), "programs_with_a_single_outcome": single, "violating_schedules": tt.violation_total, "wall_s_together_with_S": st_wall}));
     if let Some(x) = tt.sample.clone() {
         rep.sample(x);
     }
-    if !single.is_empty() {
-        rep.machinery(format!("vacuous: programs with a single outcome: {single:?}"));
+    if !single.is_empty() || tt.outcomes.len() != nprog {
+        rep.machinery(format!("vacuous: programs with a single outcome: {single:?} ({} of {nprog} programs reported)", tt.outcomes.len()));
     }
 
-    rep.add("states", s.states + tt.executions + x.cases + r.comparisons);
+    // Part X
+    let t = env::real_now_s();
+    let x = part_x(true);
+    if let Some(m) = &x.machinery {
+        rep.machinery(m.clone());
+    }
+    for (sig, msg, r) in &x.violations {
+        rep.violation(sig.clone(), msg.clone(), r.clone());
+    }
+    rep.part("X", json!({"cases": x.cases, "field_mutations": x.field_mutations, "removals_swaps_forgeries": x.structural, "bit_flips": x.bitflips, "bit_flips_undecodable": x.bitflips_decode_fail, "bit_flips_decoding_to_the_same_block": x.benign_equal, "detected": x.detected, "undetected": x.undetected, "undetected_cases": x.undetected_list, "wall_s": env::real_now_s() - t}));
+    rep.sample(json!({"part":"X","chain":"genesis + [put a] + [put b, delete a | delta e3] + [put a, put c, delete b]","example_case":"block 2: tx 1 payload/kind altered, tx_root recomputed"}));
+
+    // Part R
+    let t = env::real_now_s();
+    let seqs: Vec<BlockSeq> = s.seqs.par_iter().map(|(c, h, _)| block_seq(*c, h)).collect();
+    let r = part_r(&seqs);
+    for (sig, msg, rp) in &r.violations {
+        rep.violation(sig.clone(), msg.clone(), rp.clone());
+    }
+    rep.part("R", json!({"distinct_block_sequences": seqs.len(), "cases (sequence x scenario)": r.sequences, "blocks_applied": r.blocks_applied, "blocks_accepted_by_replica_A": r.accepted_a, "root_comparisons": r.comparisons, "violating_cases": r.violating, "passing_cases_by_scenario(0=twin,1=later apply,2=later creation,3=other id)": r.passing_by_scenario, "wall_s": env::real_now_s() - t}));
+    if let Some(bs) = seqs.last() {
+        rep.sample(json!({"part":"R","ops": bs.hist, "blocks": bs.blocks.iter().map(|b| format!("{:?}", b.transactions)).collect::<Vec<_>>()}));
+    }
+
+    rep.add("states", s_states + tt.executions + x.cases + r.comparisons);
     rep.add("transitions", s.transitions + tt.sched_points + x.cases + r.blocks_applied);
     rep.add("traces_validated_against_impl", s.transitions + tt.executions + x.cases + r.sequences);
     rep.add("evaluations", s.transitions + tt.executions + x.cases + r.comparisons);
-    rep.add("distinct_nontrivial", s.states + nontrivial_t + x.cases + r.comparisons);
-    if s.states < 200 {
+    rep.add("distinct_nontrivial", s_states + nontrivial_t + x.cases + r.comparisons);
+    if s_states < 200 {
         rep.machinery("vacuous: too few sequential states");
     }
-    if s.commits_ok < 10 || s.seqs.is_empty() {
+    if s.commits_ok < 10 || seqs.is_empty() {
         rep.machinery("vacuous: (almost) no commit created a block");
     }
     if r.accepted_a == 0 {
